@@ -437,6 +437,23 @@ def check_bookkeeping(run: Run) -> None:
             if not ok:
                 run.violation("R07.1b", lx, "tokenize", f"pos = {x} without column update", f"`pos = {x}` is not preceded by `column += {x} - pos`: later tokens on the line get a wrong column")
             continue
+        if isinstance(u, ast.Assign) and isinstance(u.value, ast.Call) and isinstance(u.value.func, ast.Attribute) and u.value.func.attr == "end" and not u.value.args:
+            # pos = <m>.end()  with  column += (<m>.end() - pos) before it in the block (directly or through a local)
+            x = _text(u.value)
+            ok = False
+            for s in blk[: blk.index(u)]:
+                if isinstance(s, ast.AugAssign) and isinstance(s.target, ast.Name) and s.target.id == "column" and isinstance(s.op, ast.Add):
+                    v = s.value
+                    if isinstance(v, ast.Name):
+                        d = [a for a in blk if isinstance(a, ast.Assign) and isinstance(a.targets[0], ast.Name) and a.targets[0].id == v.id]
+                        if d and _text(d[0].value) == f"{x} - pos":
+                            ok = True
+                    elif _text(v) == f"{x} - pos":
+                        ok = True
+            run.instance("R07.1b", where, f"pos = {x}: " + ("column += (that position - pos) first" if ok else "NO matching column update"), ok=ok)
+            if not ok:
+                run.violation("R07.1b", lx, "tokenize", f"pos = {x} without column update", f"`pos = {x}` is not preceded by `column += {x} - pos`: later tokens on the line get a wrong column")
+            continue
         run.instance("R07.1b", where, f"pos update `{_text(u)}` not classified", ok=False)
         run.violation("R07.1b", lx, "tokenize", f"{_text(u)}", "this update of pos has no recognised column/line bookkeeping")
     if n_checked < 5:
